@@ -349,6 +349,8 @@ def pyref1(n):
         return Q(us_of(a[0]), us_of(a[1]))
     if f in ('*', '/'):
         raise Unsup(f)
+    if f == 'utctz':
+        return mk_ts(0)
     if f == 'neg':
         return -a[0]
     if f == 'pos':
@@ -595,6 +597,8 @@ def gen_ts_leaf(rng):
 
 def off_node(rng, o):
     """a timespan expression worth o microseconds"""
+    if o == 0 and rng.random() < 0.3:
+        return C('utctz')
     if rng.random() < 0.5 or o % US:
         return L_ts(o)
     s = o // US
@@ -1285,7 +1289,9 @@ LEVEL_TEXT = ('Lean 4 theorems over a code-shaped model of date_time.py on top o
               'datetime(d.timestamp, d.offset) = d on microsecond-exact rationals; the unit properties are exact '
               'rationals of one microsecond count and timespan(microseconds => x.microseconds) = x; a value without '
               'zone is treated as the same wall clock at UTC by every function whose parameter is declared '
-              'yaqltypes.DateTime(), and the field readers do not depend on the zone.  That every datetime parameter '
+              'yaqltypes.DateTime(), and the field readers do not depend on the zone; the transcribed calendar is a '
+              'bijection between the dates of years 1..9999 and their ordinals, so datetime(y, m, d, ...) is read back '
+              'by the field properties and d.date + d.time = d.  That every datetime parameter '
               'of every definition registered by date_time.py is so declared is re-proved by the kernel over a table '
               'regenerated from the live registrations.  The model is tied to the code by evaluating random '
               'expression trees on the real engine and on the compiled model and comparing exactly, and the laws are '
